@@ -6,7 +6,7 @@ atoms-vs-parameters split per section.  Parsed from the CURRENT sources with `as
   top_parser.TOPDirector.atom_idxs                     -> Tables.Top.atomIdxs  : List (String x List AtomIdx)
 """
 import ast
-from gen_tables import src, find_func, local_assign, lstr, TranslatorError
+from gen_tables import src, find_func, local_assign, lstr, TranslatorError, live_module
 
 LEAN_FILE = "Top.lean"
 
@@ -139,13 +139,38 @@ def _find_patterns(topo):
         return found[0]
 
 
+def _atom_idxs_live():
+    """fallback when TOPDirector.atom_idxs is no longer a dict literal (e.g. built by a comprehension from a
+    smaller table): the live class attribute; the table is only used for lookup, so it is emitted sorted"""
+    try:
+        live = live_module("top_parser").TOPDirector.atom_idxs
+    except Exception as err:  # pylint: disable=broad-except
+        raise TranslatorError("TOPDirector.atom_idxs is neither a dict literal nor a live attribute: %s" % err)
+    out = []
+    for key in sorted(live):
+        row = []
+        for elt in live[key]:
+            if isinstance(elt, int) and not isinstance(elt, bool) and elt >= 0:
+                row.append(("idx", elt))
+            elif isinstance(elt, slice) and elt.step is None and all(
+                    b is None or (isinstance(b, int) and b >= 0) for b in (elt.start, elt.stop)):
+                row.append(("slice", elt.start, elt.stop))
+            else:
+                raise TranslatorError("atom_idxs[%s]: entry %r is neither int nor slice" % (key, elt))
+        out.append((key, row))
+    return out
+
+
 def extract():
     tab = {}
     topo = src("topology.py")
     tab["patterns"] = _find_patterns(topo)
     tab["combFuncs"] = _comb_funcs(local_assign(find_func(topo, "gen_pairs", cls="Topology"), "comb_funcs"))
     parser = src("top_parser.py")
-    tab["atomIdxs"] = _atom_idxs(_class_assign(parser, "TOPDirector", "atom_idxs"))
+    try:
+        tab["atomIdxs"] = _atom_idxs(_class_assign(parser, "TOPDirector", "atom_idxs"))
+    except TranslatorError:
+        tab["atomIdxs"] = _atom_idxs_live()
     tab["sections"] = _sections(parser, "TOPDirector")
     return tab
 
